@@ -5,3 +5,48 @@ GO_TEST = "TestVerifC11"
 RUN_MODULE = "Run_C11"
 COQ_TARGETS = ["Corr/Run_C11.vo", "Proofs/MsgSenderProofs.vo"]
 N = {"quick": 400, "thorough": 12000}
+GO_TIMEOUT = {"quick": 600, "thorough": 2400}
+RULE = ("online-generated driver schedules on the real messageSenderImpl over a fake host with in-memory gated streams, inside "
+        "testing/synctest: 1-3 peers, 1-8 concurrent SendRequest/SendMessage calls, steps start / NewStream ok|fail / write ok|fail / "
+        "remote answers oldest request (good|garbage, also on streams the client already reset = late reply) / remote reset / read timeout "
+        "(virtual time) / ctx cancel|deadline / OnDisconnect (with or without the transport killing the peer's streams); five profiles "
+        "(mixed, fault-heavy, stream-reuse counter, slow remote, disconnect-heavy). A case is non-trivial when it reaches at least one of "
+        "retry / write-fail / dial-fail / timeout / timeout-twice / late-reply-dropped / garbage / remote-reset / cancel-blocked / "
+        "disc-busy / disc-idle / invalidated / two-open-after-disc / one-message-per-stream / msg-ok; distinct = distinct "
+        "(branch set, peers, calls) signatures")
+TRUSTED = [
+    "the in-memory stream of the harness (Read/Write/Reset/Close over buffers, write of a complete varint-framed message is a gate) "
+    "stands for a yamux stream; go-msgio framing and protobuf decoding are exercised but not verified",
+    "testing/synctest: virtual time, synctest.Wait() = every goroutine durably blocked; the Go runtime serves blocked channel senders "
+    "in FIFO order (CtxMutex hand-off order used by the correspondence run, not by the theorems)",
+    "each critical section under messageSenderImpl.smlk is one atomic model event (no blocking call inside them)",
+]
+ASSUMPTIONS = [
+    "the remote answers the requests of a stream in order, one reply per request, echoing the request id, and never sends "
+    "unsolicited messages (a remote that answers a SendMessage leaves a stale reply on the reused stream: outcome reported under "
+    "input_distribution 'adversarial:remote-answers-SendMessage:*', not a violation)",
+    "request ids are the call ids; Stream.Close returns nil",
+    "one stream per PEER is proved only for event lists without OnDisconnect and without a failed Lock(ctx); with them the model "
+    "refutes it (c11_one_stream_per_peer_refuted, c11_stream_leak_refuted); the trace check allows one extra open stream per "
+    "disconnect notification of the peer",
+    "schedules in which Go's select would have two ready arms (Lock(ctx) with a free lock and a done context) are not generated",
+]
+TECHNIQUE = ("Coq proof (invariant by induction over all event lists of a transcribed state machine of messageSenderImpl / "
+             "peerMessageSender / CtxMutex) plus differential correspondence: the real code is driven step by step inside synctest "
+             "and the model replays the same driver steps, observations compared after every step")
+LEVEL_TEXT = ("Theorems in coq/Props/C11.v hold for every event list (every interleaving of SendRequest/SendMessage/OnDisconnect calls, "
+              "every placement of dial/write failures, late, garbage or missing replies, remote resets, read timeouts and context "
+              "cancellations) of the model: a sender whose lock is free has a clean stream, a returned reply carries the caller's own "
+              "request id and is obtained only by the read of its own exchange, a timed-out or cancelled read resets and drops the stream "
+              "and fails (after at most one retry on a new stream), a reset stream is never written to or current again, exchanges on a "
+              "sender are serialized by its lock over at most one open stream, a call writes at most twice, no nil-stream dereference. "
+              "PARTIAL: the proof is about the state machine; real stream/yamux behaviour is replaced by an in-memory pipe; one stream "
+              "per peer holds only without orphaned sender records (refutations given).")
+LEVEL_NOTE = ("Proof is about the Gallina model; the tie to the Go code is the correspondence run (step-by-step differential testing under "
+              "synctest, bounded by the generator). Trusted: Coq kernel, vm_compute, the harness and its in-memory streams, synctest, "
+              "FIFO hand-off of the channel mutex.")
+
+
+def classify(desc, code):
+    # no known finding is produced by the correspondence run on the unchanged tree
+    return None
